@@ -31,14 +31,17 @@ from common import (Ctx, Failure, cbool, cjson, clist, cnat, copt, cpair, cstr, 
 
 COQ_TARGETS = ["props/P_C18.vo", "corr/Corr_C18.vo"]
 PROOF_FILES = ["proofs/FnTestRun_proofs.v"]
-RULE = ("FunctionTests of 1..20 cases against 6 ResourceFunctions (patch / recreate / never / readonly / "
+RULE = ("(a) corpus of shrunk past failures; (b) EXHAUSTIVE small scope: every sequence of <=2 (quick) / <=3 (thorough) "
+        "cases over 5 case bodies x {plain, variant, skip} against the patching ResourceFunction; (c) random "
+        "FunctionTests of 1..20 cases against 6 ResourceFunctions (patch / recreate / never / readonly / "
         "deleteIfExists / plural-lookup) and 2 ValueFunctions whose behaviour depends on inputs and on the "
         "current resource; cases mix inputOverrides (deep-merged), currentResource, overlayResource (static, "
         "resource- and input-dependent, failing), all four assertion kinds made true or false from an "
-        "instrumented run, variant/skip flags anywhere, at most a few failing non-variant cases; every test is "
-        "run as is, twice, and in 6-9 derived forms (variants removed / moved / duplicated / inserted, skips "
-        "removed); a test is non-trivial when it has >=3 executed cases, >=1 variant or skip, and state that "
-        "changed at least once; distinct by content")
+        "instrumented run, variant/skip flags anywhere, at most one planned failing non-variant case, injected "
+        "inputs-overlay errors; every test is run as is, twice, as a single folded case, and in up to 6 derived "
+        "forms (variants removed / some removed / moved / duplicated+inserted, skips removed, both removed); "
+        "(d) direct streams for cel.functions._overlay and MockApi. A test is non-trivial when it has >=3 executed "
+        "cases, >=1 variant or skip among them, and the threaded state changed at least once; distinct by content")
 ASSUMPTIONS = [
     "the function under test is a function of the (inputs, resource) it is handed (checked: the recorded "
     "table must be functional, modulo the case index embedded in location strings)",
@@ -57,6 +60,7 @@ TRUSTED = ["instrumentation: subclass of run.MockApi and wrappers around run.rec
 
 IDX_RE = re.compile(r"testCases\[\d+\]")
 ERR_KEY = "__celerr__"
+CRASH_KEY = "c18.koreo.dev/crash"
 LOC = "c18"
 
 # ---------------------------------------------------------------------------
@@ -221,6 +225,8 @@ def gen_resource(rng, kind, inputs):
         res.setdefault("status", {})["broken"] = True
     if rng.random() < 0.15:
         res["metadata"]["annotations"] = {"note": "kept"}
+    if rng.random() < 0.02:
+        res["metadata"].setdefault("annotations", {})[CRASH_KEY] = "1"
     if rng.random() < 0.1:
         res["spec"]["extra"] = [1, {"k": "v"}]
     return res
@@ -411,6 +417,12 @@ def install():
                 REC.cur["api_resource"] = canon(current_resource)
 
         def call_api(self, *args, **kwargs):
+            cur_res = self._current_resource
+            if (isinstance(cur_res, dict) and isinstance(cur_res.get("metadata"), dict)
+                    and CRASH_KEY in (cur_res["metadata"].get("annotations") or {})):
+                # harness-only: lets a PATCH/DELETE escape reconcile_* as an exception, so that the
+                # runner's behaviour on a crashing function is observed too
+                raise RuntimeError("c18 injected API failure")
             if REC is not None and REC.cur is not None:
                 if args and "DELETE" in args:
                     REC.cur["calls"].append(None)
@@ -875,6 +887,33 @@ def to_coq(test, ob, healthy=True):
 # one generated test, end to end
 # ---------------------------------------------------------------------------
 
+SMALL_BODIES = [
+    {},
+    {"inputOverrides": {"a": 2}},
+    {"overlayResource": {"status": {"ready": True}}},
+    {"currentResource": {"apiVersion": "c18.koreo.dev/v1", "kind": "WidgetP", "metadata": {"name": "w1", "namespace": "ns"},
+                         "spec": {"a": 1, "b": {"x": 1}}, "status": {"ready": True}}},
+    {"inputOverrides": {"pre": "fail"}},
+]
+SMALL_FLAGS = [{}, {"variant": True}, {"skip": True}]
+
+
+def small_scope(maxlen):
+    """every sequence of up to maxlen cases over 5 bodies x {plain, variant, skip} against the patching function"""
+    import itertools
+    alpha = [dict(copy.deepcopy(b), **f) for b in SMALL_BODIES for f in SMALL_FLAGS]
+    for n in range(1, maxlen + 1):
+        for seq in itertools.product(alpha, repeat=n):
+            cases = []
+            for i, c in enumerate(seq):
+                c = copy.deepcopy(c)
+                c["label"] = f"c{i}"
+                c["expectDelete"] = False
+                cases.append(c)
+            yield {"fn": "c18-patch", "fn_kind": "ResourceFunction", "inputs": {"name": "w1", "a": 1, "b": {"x": 1}},
+                   "resource": None, "cases": cases}
+
+
 def gen_test(rng, env, quick):
     fn = rng.choices(env.fns, weights=ZOO_WEIGHTS)[0]
     inputs = gen_inputs(rng)
@@ -904,10 +943,10 @@ def gen_test(rng, env, quick):
     return fn, test, plan
 
 
-async def fix_assertions(env, fn, test, plan, rng):
+async def fix_assertions(env, fn, test, plan, rng, repair=True):
     """make the assertions true/false as planned, using what the instrumented run observes;
     repair most setup errors (overlayResource before any resource exists), which abort a run"""
-    allow_setup_error = rng.random() < 0.12
+    allow_setup_error = (not repair) or rng.random() < 0.12
     ob = None
     for _ in range(3 * len(test["cases"]) + 3):
         ft = await env.prepare(test)
@@ -940,7 +979,7 @@ def label_of(k):
     return f"c{k}"
 
 
-async def check_test(ctx: Ctx, env: Env, fn, test, rng, cases_out, terms_out, do_derive=True):
+async def check_test(ctx: Ctx, env: Env, fn, test, rng, cases_out, terms_out, do_derive=True, derive_kinds=None):
     """run T and its derived tests; oracle + snapshot monitor; collect correspondence terms.
     Returns the base observation."""
     fut_before = fingerprint(env.function(fn))
@@ -1001,6 +1040,8 @@ async def check_test(ctx: Ctx, env: Env, fn, test, rng, cases_out, terms_out, do
     if not do_derive:
         return ob
     for name, der, order_preserved in derive(test, rng, fn):
+        if derive_kinds is not None and name not in derive_kinds:
+            continue
         try:
             dft = await env.prepare(der)
         except PrepareError:
@@ -1018,6 +1059,8 @@ async def check_test(ctx: Ctx, env: Env, fn, test, rng, cases_out, terms_out, do
             ctx.fail(Failure(signature=f"{name}: {sig}", what=f"{name}: {what}",
                              case={"test": small_t, "derived": small_d, "how": name},
                              observed=None, expected="identical results for every case with the same non-variant predecessors"))
+    # fold the prefix: case k alone, started from what the last non-variant case before it produced
+    await fold_prefix_oracle(ctx, env, test, ob, rng)
     # freshly prepared, after everything else ran against the same function
     ft3 = await env.prepare(test)
     ob3 = await env.run(ft3, record=False)
@@ -1030,6 +1073,45 @@ async def check_test(ctx: Ctx, env: Env, fn, test, rng, cases_out, terms_out, do
                          what="running derived FunctionTests changed the prepared Function under test",
                          case=test, observed=fingerprint(env.function(fn)), expected=fut_before))
     return ob
+
+
+async def fold_prefix_oracle(ctx, env, test, ob, rng):
+    """sentence 1 through the public API: case k, run as the only case of a FunctionTest whose base
+    fixtures are the inputs / resource that the last passing non-variant case before it produced
+    (as seen at the mock API), must get the same result as in T"""
+    tr = ob["trace"]
+    ks = [k for k in range(1, len(tr)) if k < len(ob["results"]) and not tr[k].get("crashed")]
+    if not ks or ob["raised"]:
+        return
+    k = rng.choice(ks)
+    prod = (test.get("inputs") or None, test.get("resource"))
+    for j in range(k):
+        c = test["cases"][j]
+        if c.get("variant") or c.get("skip"):
+            continue
+        if tr[j]["api"] is None or tr[j]["fut"] is None:
+            return            # cannot happen before an executed case; be safe
+        api = tr[j]["api"]
+        prod = (tr[j]["fut"]["inputs"], canon(api.materialized) if api._api_called else tr[j]["api_resource"])
+    single = dict(test, inputs=copy.deepcopy(prod[0]), resource=copy.deepcopy(prod[1]),
+                  cases=[copy.deepcopy(test["cases"][k])])
+    try:
+        sob = await env.run(await env.prepare(single), record=False)
+    except PrepareError:
+        ctx.count("derived:fold-prefix-prepare-failed")
+        return
+    ctx.count("derived:fold-prefix")
+    if sob["raised"] or not sob["results"]:
+        return
+    ra, rb = ob["results"][k], sob["results"][0]
+    for field in ("pass", "outcome", "message", "differences"):
+        if skey(jsonable(ra[field])) != skey(jsonable(rb[field])):
+            ctx.fail(Failure(signature=f"fold-prefix: result-{field}",
+                             what=f"case {test['cases'][k]['label']} does not start from what the last non-variant case "
+                                  f"before it produced: {field} {ra[field]!r} in the full test, {rb[field]!r} when run alone from that state",
+                             case={"test": dict(test, cases=test["cases"][:k + 1]), "derived": single, "how": "fold-prefix"},
+                             observed=ra, expected=rb))
+            return
 
 
 async def shrink_pair(env, test, der, order_preserved, sig):
@@ -1155,18 +1237,40 @@ async def amain(ctx: Ctx, tests_from_corpus, n_tests):
         await env.setup()
         todo = []
         for t in tests_from_corpus:
-            t = t.get("case", t)
-            t = t.get("test", t)
+            entry = t.get("case", t)
+            t = entry.get("test", entry)
             fn = next((f for f in env.fns if f["name"] == t.get("fn")), None)
             if fn is not None:
-                todo.append((fn, t))
-        for fn, t in todo:
+                todo.append((fn, t, entry))
+        for fn, t, entry in todo:
             try:
                 ob = await check_test(ctx, env, fn, copy.deepcopy(t), ctx.rng, cases, terms)
                 ctx.note_case(t, nontrivial(t, ob))
                 ctx.count("corpus")
+                if "derived" in entry and entry.get("how") != "fold-prefix":
+                    der = entry["derived"]
+                    dob = await env.run(await env.prepare(der))
+                    bad = compare_runs(t, ob, der, dob, entry.get("how") != "variants-moved")
+                    if bad:
+                        ctx.fail(Failure(signature=f"{entry.get('how')}: {bad[0]}", what=f"corpus pair: {bad[1]}", case=entry))
             except PrepareError:
                 ctx.count("corpus:prepare-failed")
+        for test in small_scope(2 if ctx.quick() else 3):
+            fn = next(f for f in env.fns if f["name"] == test["fn"])
+            plan = [{"pref": ["outcome", "return", "resource", "delete"][(i + len(test["cases"])) % 4], "truthful": True, "fixed": False}
+                    for i in range(len(test["cases"]))]
+            await fix_assertions(env, fn, test, plan, ctx.rng, repair=False)
+            ob = await check_test(ctx, env, fn, test, ctx.rng, cases, terms, derive_kinds=("variants-removed", "skips-removed", "variants-moved"))
+            ctx.note_case(test, nontrivial(test, ob))
+            ctx.count("small-scope")
+        # the function under test is missing: no case runs, fatal_error is set
+        missing = {"fn": "c18-no-such-function", "fn_kind": "ResourceFunction", "inputs": {"name": "w1"}, "resource": None,
+                   "cases": [{"label": "c0", "expectDelete": False}, {"label": "c1", "variant": True, "expectDelete": True}]}
+        mob = await env.run(await env.prepare(missing))
+        mterm, _ = to_coq(missing, mob, healthy=False)
+        cases.append({"test": missing, "how": "missing-function"})
+        terms.append(mterm)
+        ctx.cases += 1
         for _ in range(n_tests):
             fn, test, plan = gen_test(ctx.rng, env, ctx.quick())
             try:
@@ -1214,7 +1318,7 @@ def distribution(ctx, fn, test, ob):
 
 
 def run(ctx: Ctx):
-    n_tests = 110 if ctx.quick() else 1500
+    n_tests = 110 if ctx.quick() else 1000
     loop_result = asyncio.run(amain(ctx, corpus_cases("C18"), n_tests))
     cases, terms, ocases, oterms, acases, aterms = loop_result
     if ctx.model_ok:
@@ -1223,11 +1327,36 @@ def run(ctx: Ctx):
         ctx.correspond("MockApi vs api_run", "Corr_C18", acases, aterms, check_fn="check_api")
 
 
+async def areplay(ctx: Ctx, case):
+    env = Env()
+    install()
+    cases, terms = [], []
+    try:
+        await env.setup()
+        test = case["test"] if "test" in case else case
+        fn = next(f for f in env.fns if f["name"] == test["fn"])
+        ob = await check_test(ctx, env, fn, copy.deepcopy(test), ctx.rng, cases, terms, do_derive="derived" not in case)
+        ctx.note_case(test, True)
+        if "derived" in case:
+            der = case["derived"]
+            how = case.get("how", "derived")
+            dob = await env.run(await env.prepare(der))
+            dterm, _ = to_coq(der, dob)
+            cases.append({"test": der, "how": how})
+            terms.append(dterm)
+            bad = compare_runs(test, ob, der, dob, how != "variants-moved")
+            if bad:
+                ctx.fail(Failure(signature=f"{how}: {bad[0]}", what=f"{how}: {bad[1]}", case=case))
+    finally:
+        try:
+            await env.teardown()
+        finally:
+            uninstall()
+    return cases, terms
+
+
 def replay(ctx: Ctx, data):
     case = data["case"] if "case" in data else data
-    tests = [case["test"]] if "test" in case else [case]
-    if "derived" in case:
-        tests.append(case["derived"])
-    cases, terms, *_ = asyncio.run(amain(ctx, tests, 0))
+    cases, terms = asyncio.run(areplay(ctx, case))
     if ctx.model_ok and terms:
         ctx.correspond("replay", "Corr_C18", cases, terms)
